@@ -52,6 +52,8 @@ func main() {
 		cmdExec(os.Args[2:])
 	case "check":
 		cmdCheck(os.Args[2:])
+	case "difftest":
+		cmdDifftest(os.Args[2:])
 	case "replay":
 		cmdReplay(os.Args[2:])
 	default:
@@ -195,6 +197,7 @@ type ExecResult struct {
 	Tier1Hits    int                          `json:"scalar_tier_hits"`
 	Merged       int                          `json:"branches_merged"`
 	Resolved     int                          `json:"layer_conditions_resolved"`
+	InputsUsed   map[string]string            `json:"inputs_used,omitempty"`
 }
 
 type DiffResult struct {
@@ -250,6 +253,7 @@ func cmdExec(args []string) {
 	known := fs.String("known", "", "known_findings.json")
 	_ = fs.String("second", "", "(obsolete: the cross-check is controlled by VSYM_XCHECK)")
 	inputsFile := fs.String("inputs", "", "JSON file with a concrete input vector (differential mode)")
+	randSeed := fs.Uint64("random", 0, "differential mode: draw missing inputs pseudo-randomly from this seed (concrete run)")
 	solverBin := fs.String("solver", envOr("VSYM_SOLVER", "z3-new"), "primary solver binary (z3-new | z3 | cvc5)")
 	jobsFile := fs.String("jobs", "", "JSON file: list of {fn,case,unwind,paths,steps,timeout,out}")
 	fs.Parse(args)
@@ -261,6 +265,7 @@ func cmdExec(args []string) {
 		Steps   int              `json:"steps"`
 		Timeout int              `json:"timeout"`
 		Out     string           `json:"out"`
+		Random  uint64           `json:"random"`
 	}
 	var jobList []jobT
 	if *jobsFile != "" {
@@ -319,6 +324,12 @@ func cmdExec(args []string) {
 		if *inputsFile != "" {
 			ex.concrete = loadConcrete(*inputsFile)
 		}
+		if seed := max(*randSeed, job.Random); seed != 0 {
+			if ex.concrete == nil {
+				ex.concrete = map[string]string{}
+			}
+			ex.randSeed = seed
+		}
 		ex.Explore(fn)
 		res := &ExecResult{Harness: name, Case: ex.caseVals, Paths: ex.Paths, PathsEnded: ex.PathsEnded, Branches: ex.Branches,
 			Obligations: ex.Obligations, Discharged: ex.Discharged, Trivial: ex.Trivial, Queries: solver.Queries, CacheHits: solver.CacheHits,
@@ -334,6 +345,9 @@ func cmdExec(args []string) {
 		if solver.XEvery > 0 {
 			x := solver.X
 			res.Diff = &x
+		}
+		if ex.randSeed != 0 {
+			res.InputsUsed = ex.concrete
 		}
 		solver.Close()
 		res.WallSec = time.Since(t1).Seconds()
